@@ -227,6 +227,49 @@ func c20(c *Ctx) {
 			"subscription key = "+t+": a key derived from mutable state (such as the current number of subscriptions) repeats after a removal and overwrites a live subscriber, which then receives nothing")
 	}
 	R.Floor("C20.fresh-key", nk, 1)
+	// delivery cannot be dropped: a send to a matching subscriber is not a select with a default
+	for _, sd := range sendsIn(pub) {
+		if loadedField(sd.Chan) != chF {
+			continue
+		}
+		R.Check("C20.match", R.Key("C20.match", shortFn(pub), "delivery-not-droppable"), c.rel(p.Pos(sd.Instr.Pos())), "a VAA for a matching subscriber is delivered, not dropped when the subscriber's one-slot queue is momentarily full", !(sd.InSelect && !sd.Blocking),
+			"the send is a select with a default: a second VAA published while the subscriber is still writing the first one to its stream is silently lost")
+	}
+	// registration and removal are paired: after the subscription is put into the map, every path
+	// reaches the deferred removal (an early return in between leaks the subscription, whose
+	// never-drained channel then blocks every later Publish)
+	subFn0 := must(p.Method(pkgSpy, "spyServer", "SubscribeSignedVAA"), "SubscribeSignedVAA")
+	for _, s := range mapUpdatesOnField(p, subF) {
+		if s.Fn != subFn0 {
+			continue
+		}
+		okPair, wit := facts.MustPassAfter(s.Instr, func(i ssa.Instruction) bool {
+			d, ok := i.(*ssa.Defer)
+			if !ok {
+				return false
+			}
+			found := false
+			var scan func(f *ssa.Function)
+			scan = func(f *ssa.Function) {
+				eachInstr(f, func(j ssa.Instruction) {
+					if cl, ok := j.(*ssa.Call); ok && facts.CalleeName(&cl.Call) == "delete" && loadedField(cl.Call.Args[0]) == subF {
+						found = true
+					}
+				})
+			}
+			if mc, ok := d.Call.Value.(*ssa.MakeClosure); ok {
+				scan(mc.Fn.(*ssa.Function))
+			} else if callee := d.Call.StaticCallee(); callee != nil {
+				scan(callee)
+			}
+			return found
+		})
+		why := ""
+		if !okPair && wit != nil {
+			why = "return at " + c.rel(p.Pos(instrPos(wit))) + " is reachable after registration and before the removal is deferred"
+		}
+		R.Check("C20.lockset", R.Key("C20.lockset", shortFn(subFn0), "removal-deferred-right-after-registration"), c.sitePos(p, s), "every path from the registration of a subscription reaches the deferred removal", okPair, why)
+	}
 	// removal is deferred in SubscribeSignedVAA
 	subFn := must(p.Method(pkgSpy, "spyServer", "SubscribeSignedVAA"), "SubscribeSignedVAA")
 	okDefer := false
